@@ -5,7 +5,7 @@ PROPS=${@:-$(python3 -c "import json;print(' '.join(c['property_id'] for c in js
 cd /repo || exit 2
 test -z "$(git status --porcelain --untracked-files=no)" || { echo "REPO DIRTY"; exit 2; }
 if ! git apply --check "$PATCH" 2>/dev/null; then
-  git apply --3way "$PATCH" >/dev/null 2>&1 || { echo "PATCH DOES NOT APPLY: $PATCH"; git checkout -q -- . ; git reset -q; exit 3; }
+  git apply --3way "$PATCH" >/dev/null 2>&1 || { echo "PATCH DOES NOT APPLY: $PATCH"; git reset -q; git checkout -q -- . ; exit 3; }
   git reset -q
 else
   git apply "$PATCH"
